@@ -4,6 +4,7 @@ HARNESSES = {
 }
 PROPS = {
     "C02": {
+        "deadline": {"quick": 900, "thorough": 2700},
         "runs": {
             "quick": [{"harness": "rectil", "args": ["--scope", "pairs", "--g", 5]},
                       {"harness": "rectil", "args": ["--scope", "triples", "--g", 4, "--sp_lo", 1, "--sp_hi", 1]},
